@@ -81,6 +81,24 @@ def _mock_storage_cls():
 MockStorage = _mock_storage_cls()
 
 
+COMMIT_SEQ = [0]        # incremented at every SyncState.storage_commit() entry (see hook_storage_commit)
+_commit_hooked = [False]
+
+
+def hook_storage_commit():
+    """Class-level observation of commit boundaries: which storage writes belong to the same storage_commit()."""
+    if _commit_hooked[0]:
+        return
+    from cloudsync.sync.state import SyncState          # pylint: disable=import-outside-toplevel
+    orig = SyncState.storage_commit
+
+    def storage_commit(self):
+        COMMIT_SEQ[0] += 1
+        return orig(self)
+    SyncState.storage_commit = storage_commit
+    _commit_hooked[0] = True
+
+
 class StorageTap(Storage):
     """Storage delegating to a real backend; counts writes; can die *before* the k-th write."""
 
@@ -100,10 +118,10 @@ class StorageTap(Storage):
         self.writes += 1
         if self.crash_before is not None and self.writes == self.crash_before:
             self.world.dead = True
-            self.world.crash_site = ("storage", op, tag, self.writes)
+            self.world.crash_site = ("storage", op, tag, self.writes, COMMIT_SEQ[0])
             raise Crash("before storage write %d" % self.writes)
         if len(self.log) < 5000:
-            self.log.append((op, tag, eid))
+            self.log.append((op, tag, eid, COMMIT_SEQ[0]))
 
     def create(self, tag, serialization):
         self._w("create", tag, None)
@@ -155,6 +173,7 @@ class ProviderTap:
         self.corrupt = None             # callable(oid, path) -> bool: engine download raises CloudCorruptError
         self.mangler = None             # callable(iterator_of_events) -> iterator
         self.perm_fail = None           # callable(op, path_before, path_target) -> exception or None (engine ctx)
+        self.yielded = set()            # cursor indices of events handed to the engine and not yet processed by it
         self.orig = {}
         for name in WRITES + READS:
             self._wrap(name)
@@ -315,10 +334,17 @@ class ProviderTap:
         orig = self.prov.events
         tap = self
 
+        def tracked(src):
+            for ev in src:
+                c = getattr(ev, "new_cursor", None)
+                if c is not None:
+                    tap.yielded.add(c)
+                yield ev
+
         def events():
             if tap.world.ctx == "engine" and tap.world.dead:
                 raise Crash("dead")
-            src = orig()
+            src = tracked(orig())
             if tap.mangler is None:
                 return src
             return tap.mangler(src)
